@@ -55,6 +55,7 @@ int main(int argc,char**argv){
 	for(char *q=strtok(argv[1],"/"); q && nprog<MAXTH; q=strtok(0,"/")) prog[nprog++]=q;
 	for(int i=0;i<NE;i++) E[i].id=i;
 	vs_region(E,sizeof E,"E"); vs_region(&LH,sizeof LH,"LH"); vs_region(&HH,sizeof HH,"HH"); vs_region(gen,sizeof gen,"gen");
+	vs_plain_track(E,sizeof E); vs_plain_track(&LH,sizeof LH); vs_plain_track(&HH,sizeof HH);   /* effective in the build with instrumented plain stores */
 	printf("- layout ent %d l %d h %d\n",(int)sizeof(struct ent),(int)offsetof(struct ent,l),(int)offsetof(struct ent,h));
 	for(int i=0;i<nprog;i++) vs_spawn(body);
 	vs_run(argv[2]);
